@@ -864,3 +864,104 @@ _STEPS[4].file = RC_FILE
 _STEPS[5].file = "sparseSpACE/GridOperation.py"
 _STEPS[6].file = "sparseSpACE/GridOperation.py"
 CONTRACTS += _STEPS + [EvaluateOperation(1), EvaluateOperation(2)]
+
+
+# --------------------------------------------------------------------------- between two refinement steps: cursors and markers are reset
+def reset_container(S, tag=""):
+    n = S.int("n" + tag)
+    S.assume(n >= 0)
+    objs = ObjSeq("RefinementObjectSingleDimension", n, dict(benefit=S.array("benefit" + tag, I, R), error=S.array("error" + tag, I, R), value=S.array("value" + tag, I, R),
+                                                             evaluations=S.array("evaluations" + tag, I, I)))
+    return Obj("RefinementContainer", dict(refinementObjects=objs, dim=1, startNewObjects=S.int("startNewObjects" + tag), searchPosition=S.int("searchPosition" + tag),
+                                           value=S.real("cvalue" + tag), evaluationstotal=S.int("cevals" + tag)))
+
+
+def objects_reset(o, n):
+    j = z3.Int("rj")
+    return z3.ForAll([j], z3.Implies(z3.And(j >= 0, j < n), z3.And(z3.Select(o.fields["error"], j) == 0, z3.Select(o.fields["value"], j) == 0, z3.Select(o.fields["evaluations"], j) == 0)))
+
+
+class ReinitNewObjects(Contract):
+    """RefinementContainer.reinit_new_objects: every object takes part in the next evaluation again (marker 0), totals and per-object results are zeroed"""
+    file, qualname = RC_FILE, "RefinementContainer.reinit_new_objects"
+    inline = ("RefinementObjectSingleDimension.reinit", "reinit")
+    ignored_element_fields = ("volume",)
+
+    def inputs(self, S):
+        return {"self": reset_container(S)}
+
+    def inv(self, S, env, g):
+        f = env["self"].fields
+        return [("objects-reset-so-far", objects_reset(f["refinementObjects"], g["k"])),
+                ("marker-and-totals-reset", z3.And(f["startNewObjects"] == 0, V(f["value"]) == 0, V(f["evaluationstotal"]) == 0)),
+                ("size-fixed", V(f["refinementObjects"].length) == V(S.ex.old["self"].fields["refinementObjects"].length))]
+
+    @property
+    def loops(self):
+        return {0: Loop(inv=lambda S, env, g: self.inv(S, env, g), element_fields_written=("error", "value", "evaluations"))}
+
+    def post(self, S, old, env, result):
+        f = env["self"].fields
+        o = f["refinementObjects"]
+        return [Cl("marker-reset-every-object-is-evaluated-again", f["startNewObjects"] == 0, prop=True),
+                Cl("totals-and-object-results-zeroed", z3.And(V(f["value"]) == 0, V(f["evaluationstotal"]) == 0, objects_reset(o, o.length)), prop=True),
+                Cl("benefits-and-cursor-untouched", z3.And(o.fields["benefit"] == old["self"].fields["refinementObjects"].fields["benefit"], f["searchPosition"] == old["self"].fields["searchPosition"]))]
+
+
+class ContainerPostprocessing(Contract):
+    file, qualname = RC_FILE, "RefinementContainer.refinement_postprocessing"
+
+    def inputs(self, S):
+        return {"self": reset_container(S)}
+
+    def post(self, S, old, env, result):
+        f = env["self"].fields
+        return [Cl("selection-cursor-back-at-the-first-interval", f["searchPosition"] == 0, prop=True),
+                Cl("marker-untouched", f["startNewObjects"] == old["self"].fields["startNewObjects"])]
+
+
+class MetaReset(Contract):
+    """MetaRefinementContainer.reinit_new_objects / refinement_postprocessing (1-2 dimensions): the reset reaches every dimension"""
+
+    def __init__(self, name, ndim):
+        self.file, self.qualname, self.ndim, self.kind = RC_FILE, "MetaRefinementContainer." + name, ndim, name
+        self.label = "MetaRefinementContainer.%s[dims=%d]" % (name, ndim)
+        self.inline = ("RefinementObjectSingleDimension.reinit", "reinit")
+        self.ignored_element_fields = ("volume",)
+
+    def inputs(self, S):
+        conts = [reset_container(S, str(c)) for c in range(self.ndim)]
+        return {"self": Obj("MetaRefinementContainer", dict(refinementContainers=Seq("list", conts), curContainer=S.int("curContainer")))}
+
+    def post(self, S, old, env, result):
+        f = env["self"].fields
+        conts = f["refinementContainers"].items
+        if self.kind == "reinit_new_objects":
+            return [Cl("dimension-cursor-back-at-the-first-dimension", f["curContainer"] == 0, prop=True),
+                    Cl("every-dimension-marks-all-objects-for-evaluation", z3.And(*[c.fields["startNewObjects"] == 0 for c in conts]), prop=True)]
+        return [Cl("every-dimension-has-its-selection-cursor-at-the-first-interval", z3.And(*[c.fields["searchPosition"] == 0 for c in conts]), prop=True)]
+
+
+class _ForCallers:
+    """caller-side frames of the two container resets (their own postconditions, proved above)"""
+
+
+def _reinit_havoc(self, S, cenv, tag):
+    f = cenv["self"].fields
+    o = f["refinementObjects"]
+    f["startNewObjects"] = 0
+    f["value"] = z3.RealVal(0)
+    f["evaluationstotal"] = 0
+    for k in ("error", "value"):
+        o.fields[k] = S.array("%s.%s" % (tag, k), I, R)
+    o.fields["evaluations"] = S.array("%s.evaluations" % tag, I, I)
+
+
+def _post_havoc(self, S, cenv, tag):
+    cenv["self"].fields["searchPosition"] = 0
+
+
+_r, _p = ReinitNewObjects(), ContainerPostprocessing()
+_r.havoc = _reinit_havoc.__get__(_r)
+_p.havoc = _post_havoc.__get__(_p)
+CONTRACTS += [_r, _p] + [MetaReset(nm, nd) for nm in ("reinit_new_objects", "refinement_postprocessing") for nd in (1, 2)]
